@@ -44,4 +44,8 @@ PROPS = {
         {"id": "C15", "quick_n": 1500, "thorough_n": 150000, "quick_s": 60, "thorough_s": 900,
          "rule": "op sequences (<=40) over a hostile name alphabet on the real SQL ref store (real SQLite file, reopen, statement-level SQL faults); every return value and a full dump compared with a map+logs model after every step; non-trivial = >=8 ops incl. >=1 prefix listing or bulk op and >=1 rename/copy; distinct by plan hash"},
     ]},
+    "C04": {"level": "exploration", "profiles": [
+        {"id": "C04", "quick_n": 2500, "thorough_n": 300000, "quick_s": 60, "thorough_s": 900,
+         "rule": "table pairs from edit scripts (cell edits, deletes at front/back/block edges/nested ranges, adds, identical, empty side, keyless, composite keys, 0-4 blocks), one or two stores; event multiset vs map-by-key model + offsets + self-diff + swap symmetry; non-trivial = >=2 event kinds or >=2 blocks on a side; distinct by plan hash"},
+    ]},
 }
